@@ -47,33 +47,33 @@ type Dropped struct {
 }
 
 type Result struct {
-	Entry      string            `json:"entry"`
-	Params     map[string]int64  `json:"params"`
-	Paths      int               `json:"paths"`
-	Forks      int               `json:"forks_solver"`
-	ForksEnum  int               `json:"forks_enumerated"`
-	Merges     int               `json:"if_conversions"`
-	Queries    int               `json:"queries"`
-	SolverS    float64           `json:"solver_s"`
-	WallS      float64           `json:"wall_s"`
-	LoadS      float64           `json:"load_s"`
-	Ends       map[string]int    `json:"path_ends"`
-	EndDetails map[string]int    `json:"path_end_details"`
-	Cover      map[string]int    `json:"cover"`
-	Violations []*Violation      `json:"violations"`
-	Samples    []Sample          `json:"samples"`
-	Funcs      map[string]int    `json:"functions_encoded"`
-	StdFuncs   map[string]int    `json:"stdlib_interpreted"`
-	Models     map[string]int    `json:"models_used"`
-	Races      []string          `json:"race_candidates,omitempty"`
-	Workers    int               `json:"workers"`
-	Incomplete bool              `json:"incomplete"`
-	Reason     string            `json:"incomplete_reason,omitempty"`
-	MaxUnwind  int               `json:"max_unwinding_seen"`
-	Unwind     int               `json:"unwind_bound"`
-	Solver     string            `json:"solver"`
-	Dropped    []Dropped         `json:"harness_dropped,omitempty"`
-	Missing    bool              `json:"entry_missing,omitempty"`
+	Entry      string           `json:"entry"`
+	Params     map[string]int64 `json:"params"`
+	Paths      int              `json:"paths"`
+	Forks      int              `json:"forks_solver"`
+	ForksEnum  int              `json:"forks_enumerated"`
+	Merges     int              `json:"if_conversions"`
+	Queries    int              `json:"queries"`
+	SolverS    float64          `json:"solver_s"`
+	WallS      float64          `json:"wall_s"`
+	LoadS      float64          `json:"load_s"`
+	Ends       map[string]int   `json:"path_ends"`
+	EndDetails map[string]int   `json:"path_end_details"`
+	Cover      map[string]int   `json:"cover"`
+	Violations []*Violation     `json:"violations"`
+	Samples    []Sample         `json:"samples"`
+	Funcs      map[string]int   `json:"functions_encoded"`
+	StdFuncs   map[string]int   `json:"stdlib_interpreted"`
+	Models     map[string]int   `json:"models_used"`
+	Races      []string         `json:"race_candidates,omitempty"`
+	Workers    int              `json:"workers"`
+	Incomplete bool             `json:"incomplete"`
+	Reason     string           `json:"incomplete_reason,omitempty"`
+	MaxUnwind  int              `json:"max_unwinding_seen"`
+	Unwind     int              `json:"unwind_bound"`
+	Solver     string           `json:"solver"`
+	Dropped    []Dropped        `json:"harness_dropped,omitempty"`
+	Missing    bool             `json:"entry_missing,omitempty"`
 	viol       map[string]*Violation
 }
 
